@@ -185,7 +185,7 @@ class GlsaDirSet(GenericEquality):
             if op != "eq":
                 raise ValueError(f"glob cannot be used with {op} ops")
             return packages.PackageRestriction(
-                "fullver", values.StrGlobMatch(base.fullver)
+                "fullver", values.StrGlobMatch(base.fullver), negate=negate
             )
         restrictions = []
         if op.startswith("r"):
